@@ -169,13 +169,23 @@ Definition a2c_step (cw : Z) (s : a2c_sys) (i : bool * Z) : a2c_sys :=
   let '(st', o) := Axi2ClkFSM_clock cw 1 1 (cs_st s) (b2z (fst i)) (snd i) (cs_count s) in
   {| cs_st := st'; cs_count := upd (cs_count s) (Axi2ClkFSM_o_clk_count o);
      cs_clk := upd (cs_clk s) (Axi2ClkFSM_o_clk_out o); cs_load := upd (cs_load s) (Axi2ClkFSM_o_load_outs o) |}.
-(* probe of the REGENERATED Axi2ClkFSM_clock: does a handshake taken in IDLE clear the counter?  (false at the pinned commit:
-   finding C16-F2; true once the repair fixes/C16-F2.diff is in /repo).  Computed, never edited; the general behaviour is
-   proved from the generated definition in Proofs/C16/Fsm.v (a2c_step_idle_hs), this value only selects the statement. *)
-Definition a2c_clears_on_handshake : bool :=
-  cs_count (a2c_step 8 {| cs_st := {| Axi2ClkFSM_s_state := 0; Axi2ClkFSM_s_target := 0 |}; cs_count := 5; cs_clk := 0; cs_load := 0 |} (true, 1)) =? 0.
 Fixpoint a2c_trace (cw : Z) (s : a2c_sys) (ins : list (bool * Z)) : list (Z * Z) :=
   match ins with [] => [] | i :: rest => let s' := a2c_step cw s i in (cs_clk s', cs_load s') :: a2c_trace cw s' rest end.
+
+Definition a2c_mk (st tgt c x l : Z) : a2c_sys :=
+  {| cs_st := {| Axi2ClkFSM_s_state := st; Axi2ClkFSM_s_target := tgt |}; cs_count := c; cs_clk := x; cs_load := l |}.
+
+(* HISTORY ONLY: hand copy of Axi2ClkFSM.clock as it was before the repair 03e7104 (finding C16-F2): the counter was cleared
+   only in an IDLE cycle without a handshake.  Not tied to /repo; used by one Example in Properties/C16.v. *)
+Definition a2c_step_before_03e7104 (cw : Z) (s : a2c_sys) (i : bool * Z) : a2c_sys :=
+  let st := Axi2ClkFSM_s_state (cs_st s) in let tgt := Axi2ClkFSM_s_target (cs_st s) in
+  if st =? 0 then (if fst i then a2c_mk 1 (snd i) (cs_count s) (cs_clk s) 0 else a2c_mk 0 tgt 0 0 0)
+  else if st =? 1 then a2c_mk 2 tgt (Wire_prepare cw (cs_count s + 1)) 1 (cs_load s)
+  else if st =? 2 then a2c_mk (if cs_count s =? tgt then 3 else 1) tgt (cs_count s) 0 (cs_load s)
+  else if st =? 3 then a2c_mk 0 tgt (cs_count s) (cs_clk s) 1
+  else s.
+Fixpoint a2c_trace_before_03e7104 (cw : Z) (s : a2c_sys) (ins : list (bool * Z)) : list (Z * Z) :=
+  match ins with [] => [] | i :: rest => let s' := a2c_step_before_03e7104 cw s i in (cs_clk s', cs_load s') :: a2c_trace_before_03e7104 cw s' rest end.
 
 (* ------------------------------------------------------------------ helpers for the correspondence case files *)
 Definition zb (z : Z) : bool := negb (z =? 0).
